@@ -16,7 +16,7 @@ if [ -z "$SKIPTESTS" ]; then
 else tr=0; tests="skipped"; fi
 rm -f tests/debug.dot tests/debug.svg
 cd /verif
-VERIF_SKIP_MC=1 VERIF_REPO=$wt ./check $prop --tier $tier > /tmp/ev/$name.check.log 2>&1; cr=$?
+VERIF_EVIDENCE_DIR=/tmp/ev/evidence-$name VERIF_SKIP_MC=1 VERIF_REPO=$wt ./check $prop --tier $tier > /tmp/ev/$name.check.log 2>&1; cr=$?
 nviol=$(grep -c "^VIOLATION property=$prop" /tmp/ev/$name.check.log)
 cd $wt && git checkout -q -- . 
 PYTHONPATH=$wt timeout 120 /venv/bin/python $dir/demo.py >/tmp/ev/$name.demo_without.log 2>&1; dwo=$?
